@@ -1201,6 +1201,38 @@ func runProbe(rn *runner, p *probeIn) probeOut {
 	return out
 }
 
+// runPending evaluates the real IsFinish of every step of the probe on the probe's region with a deterministic subset
+// of its peers reported as pending (every second peer in region order, chosen by the probe's conf_ver parity).
+func runPending(p *probeIn) string {
+	meta := &metapb.Region{Id: 1, StartKey: []byte("a"), EndKey: []byte("b"), RegionEpoch: &metapb.RegionEpoch{ConfVer: p.ConfVer, Version: 3}}
+	var leader *metapb.Peer
+	var pending []*metapb.Peer
+	var pendIDs []string
+	for i, q := range p.Peers {
+		mp := q.meta()
+		meta.Peers = append(meta.Peers, mp)
+		if q.Store == p.Leader {
+			leader = mp
+		}
+		if (uint64(i)+p.ConfVer)%2 == 0 {
+			pending = append(pending, mp)
+			pendIDs = append(pendIDs, coqfmt.ZU(mp.Id))
+		}
+	}
+	if len(pending) == 0 {
+		return ""
+	}
+	plain := core.NewRegionInfo(meta, leader)
+	region := plain.Clone(core.WithPendingPeers(pending))
+	var ss, fins []string
+	for _, s := range p.Steps {
+		st := s.step(plain)
+		ss = append(ss, coqStep(st))
+		fins = append(fins, coqfmt.Bool(st.IsFinish(region)))
+	}
+	return fmt.Sprintf("CPend %s %s %s\n   %s", coqRegion(plain, 0), coqfmt.List(pendIDs), coqfmt.List(ss), coqfmt.List(fins))
+}
+
 func main() {
 	seed := flag.Uint64("seed", 1, "")
 	n := flag.Int("n", 4000, "number of random cases (5-6 stores; the same number again for 4 stores in the quick tier)")
@@ -1263,6 +1295,15 @@ func main() {
 		}
 		pc := po.In
 		all = append(all, caseOut{Steps: []string{"probe"}, Trace: po.Trace, In: caseIn{Gen: "probe", Via: "probe", Origin: po.In.Peers, Leader: po.In.Leader, Probe: &pc}})
+		// the same steps on the same region with some peers still pending (snapshot not applied yet): IsFinish only
+		if pend := runPending(pi); pend != "" {
+			R.Count("gen:pending-probe")
+			R.Case(pend, false)
+			if err := cf.Add(pend); err != nil {
+				panic(err)
+			}
+			all = append(all, caseOut{Steps: []string{"pending-probe"}, In: caseIn{Gen: "pending-probe", Via: "probe", Origin: po.In.Peers, Leader: po.In.Leader, Probe: &pc}})
+		}
 	}
 	emit := func(c *caseIn) {
 		if c.Via == "probe" {
